@@ -13,7 +13,7 @@ pub fn run(cfg: &RunCfg) -> Report {
     let cases = cfg.cases(24, 700);
     run_cases(cfg, 1, cases, Duration::from_secs(3600), |_c, rng, rep| {
         let sc = ConfigSnapshot { mode: if rng.chance(1, 2) { SchedulingMode::Classic } else { SchedulingMode::Enhanced }, quality_enabled: rng.chance(1, 2), stall_deselect: rng.chance(2, 3), stall_min_in_flight: *rng.pick(&[4, 32]), stall_ack_stale_ms: *rng.pick(&[1000, 3000]), conn_timeout_ms: 5000 };
-        let opts = StreamOpts { n_links: 1 + rng.usize_below(4), cfg: sc, ticks: 5000, probing: rng.chance(1, 2), faults: if rng.chance(1, 2) { Faults::Paths } else { Faults::None }, retransmit_pct: 10, control_pct: 3, critical_windows: false, big_jumps: false, initial_windows: None, loss_permille: *rng.pick(&[20, 60, 150]), stall_min_in_flight_small: false, echo_fuzz: false, rate_pct: 60 };
+        let opts = StreamOpts { n_links: 1 + rng.usize_below(4), cfg: sc, ticks: 5000, probing: rng.chance(1, 2), faults: if rng.chance(1, 2) { Faults::Paths } else { Faults::None }, retransmit_pct: 10, control_pct: 3, critical_windows: false, big_jumps: false, initial_windows: None, loss_permille: *rng.pick(&[20, 60, 150]), stall_min_in_flight_small: false, echo_fuzz: false, rate_pct: 60, short_sends: false };
         let mut m = NakMon::new();
         let mut mons: [&mut dyn Monitor; 1] = [&mut m];
         run_stream(opts, rng, &mut mons, rep);
